@@ -61,6 +61,9 @@ class Connection:
 
     def __init__(self, afi: AFI, peer: str, local: str) -> None:
         self.msg_size: int = ExtendedMessage.INITIAL_SIZE
+        # state of a read interrupted by a cancellation (see _reader_async / reader_async)
+        self._partial_read: tuple[bytearray, int] | None = None
+        self._pending_header: memoryview | None = None
         self.defensive: bool = getenv().debug.defensive
 
         self.afi: AFI = afi
@@ -238,16 +241,24 @@ class Connection:
 
         loop = asyncio.get_event_loop()
 
-        # Pre-allocate buffer for the entire read
-        buffer = bytearray(number)
+        # Pre-allocate buffer for the entire read, or take back the one of a read which was
+        # cancelled (timeout in the caller): what it had received is part of the same message
+        if self._partial_read is not None and len(self._partial_read[0]) == number:
+            buffer, offset = self._partial_read
+        else:
+            buffer, offset = bytearray(number), 0
+        self._partial_read = None
         view = memoryview(buffer)
-        offset = 0
 
         while offset < number:
             try:
                 # asyncio.sock_recv_into() handles I/O waiting automatically via event loop
                 # This yields control to other tasks while waiting for data
-                nbytes = await loop.sock_recv_into(self.io, view[offset:])
+                try:
+                    nbytes = await loop.sock_recv_into(self.io, view[offset:])
+                except asyncio.CancelledError:
+                    self._partial_read = (buffer, offset)
+                    raise
 
                 if not nbytes:
                     self.close()
@@ -425,8 +436,11 @@ class Connection:
 
         Returns: (length, msg_type, header, body, error)
         """
-        # Read BGP header (19 bytes)
-        header = await self._reader_async(Message.HEADER_LEN)
+        # Read BGP header (19 bytes), unless a previous call was cancelled while reading the body
+        header = self._pending_header
+        self._pending_header = None
+        if header is None:
+            header = await self._reader_async(Message.HEADER_LEN)
 
         if header[:16] != Message.MARKER:
             report = 'The packet received does not contain a BGP marker'
@@ -451,6 +465,10 @@ class Connection:
             return length, msg, header, memoryview(b''), None
 
         # Read body
-        body = await self._reader_async(number)
+        try:
+            body = await self._reader_async(number)
+        except asyncio.CancelledError:
+            self._pending_header = header
+            raise
 
         return length, msg, header, body, None
